@@ -51,6 +51,9 @@ func (m *omap) find(fr *frame, k value) *mentry {
 		if e, ok := m.idx[hk]; ok {
 			return e
 		}
+		if len(m.other) == 0 {
+			return nil
+		}
 		for _, e := range m.other {
 			if e.dead {
 				continue
